@@ -616,7 +616,7 @@ class Item:
         self.log.append({"kind": "desugar-for", "loop": k, "pattern": P, "iter": E,
                          "why": "rustc's own desugaring; Verus `for` cannot contain `continue`"})
 
-    ITER_ADAPTERS = ("filter", "map", "filter_map", "skip_while", "take_while", "enumerate")
+    ITER_ADAPTERS = ("filter", "map", "filter_map", "skip_while", "take_while", "enumerate", "copied", "cloned")
 
     def desugar_iter_chain(self, anchor_src, nth, elem, out="__out", call=None):
         """SRC.a1(c1).a2(c2)...[.collect()]  ==>  { let mut out: Vec<ELEM> = Vec::new(); for __x0 in SRC { .. } out }
@@ -637,9 +637,9 @@ class Item:
             name = T[pos + 1].s
             c = match_close(T, pos + 2)
             a = pos + 3
-            if name == "enumerate":
+            if name in ("enumerate", "copied", "cloned"):
                 if a != c:
-                    raise LostAnchor("desugar-iter-chain: enumerate with arguments")
+                    raise LostAnchor("desugar-iter-chain: %s with arguments" % name)
                 stages.append((name, None, None))
             else:
                 if T[a].s == "move":
@@ -660,7 +660,7 @@ class Item:
             pos = c + 1
         if not stages:
             raise LostAnchor("desugar-iter-chain: no supported adapter follows `%s` in %s" % (" ".join(pat), self.path))
-        if pos + 1 < len(T) and T[pos].s == "." and T[pos + 1].s in ("rev", "zip", "chain", "flat_map", "flatten", "skip", "take", "step_by", "peekable", "scan", "inspect", "cloned", "copied"):
+        if pos + 1 < len(T) and T[pos].s == "." and T[pos + 1].s in ("rev", "zip", "chain", "flat_map", "flatten", "skip", "take", "step_by", "peekable", "scan", "inspect"):
             raise LostAnchor("desugar-iter-chain: unsupported adapter .%s in %s" % (T[pos + 1].s, self.path))
         terminal = None
         if pos + 1 < len(T) and T[pos].s == "." and T[pos + 1].s == "collect":
@@ -682,7 +682,11 @@ class Item:
             pos = q + 2
             terminal = "collect"
         wrapfn = None
-        if call:
+        if call and call.startswith("collect:"):
+            if terminal != "collect":
+                raise LostAnchor("desugar-iter-chain: chain in %s does not end in .collect()" % self.path)
+            wrapfn = call.partition(":")[2]
+        elif call:
             meth, _, wrapfn = call.partition(":")
             if texts(T[pos:pos + 4]) != [".", meth, "(", ")"]:
                 raise LostAnchor("desugar-iter-chain: chain in %s is not followed by .%s()" % (self.path, meth))
@@ -714,6 +718,11 @@ class Item:
             x = "__x%d" % k
             if name == "enumerate":
                 body += sc("\n let __x%d = (__n, %s); __n = __n + 1;" % (k + 1, x))
+                k += 1
+                continue
+            if name in ("copied", "cloned"):
+                # Copy types only in the code we extract (&'static str, integers): `*x`
+                body += sc("\n let __x%d = *%s;" % (k + 1, x))
                 k += 1
                 continue
             P = [Tok(t.ws, t.s, t.line) for t in ptoks]
